@@ -137,6 +137,10 @@ def run(tier, seed):
     # discipline and dispatch order, LambdaCallback's arity table, the Timer (spec/CallbackSeq.tla)
     import ext_callbacks
     ext_callbacks.run(chk, tier, seed)
+    # the auxiliary callbacks of the same protocol: Timer (fit(time=True)), LivePlotting, Logger content, progbar
+    # (spec/AuxCallbacks.tla, TraceAuxCallbacks.tla; see ext_auxcb.py)
+    import ext_auxcb
+    ext_auxcb.run(chk, tier, seed)
     if tier == "thorough":
         # unbounded safety of the stop protocol: Apalache inductive invariant on spec/TrainInd.tla, TLC
         # refinement Train.tla => TrainInd.tla (skipped, never a failure, when Apalache is unavailable)
